@@ -425,6 +425,67 @@ def m_ncrit_unknown(g, c):
     _add_ext(g, c, dict(id='other', oid='1.3.6.1.4.1.99999.%d' % g.rng.randint(1, 9), critical=False, value=G.octets(b'x')))
 
 
+def _neighbour_oid(g, base):
+    """an OID that is not `base` but shares a prefix with it: one more arc, one arc less, or a last arc whose
+    encoding extends the original one"""
+    arcs = base.split('.')
+    v = g.rng.randrange(4)
+    if v == 0:
+        return base + '.%d' % g.rng.choice([0, 1, 2, 127, 128])
+    if v == 1:
+        return base + '.%d.%d' % (g.rng.randrange(3), g.rng.randrange(3))
+    if v == 2 and len(arcs) > 3:
+        return '.'.join(arcs[:-1])
+    return '.'.join(arcs[:-1] + [str(int(arcs[-1]) + 128)])
+
+
+@cls('ext-critical-oid-neighbour-of-known', weight=4)
+def m_crit_neighbour(g, c):
+    # content is what the recognised extension would carry, so that a validator that confuses the OIDs accepts it
+    eid = g.rng.choice(sorted(G.EXT_OID))
+    tmpl = dict(id=eid, tag=g.n())
+    if eid == 'bc':
+        tmpl.update(ca=True, pathlen=None)
+    elif eid == 'ku':
+        tmpl.update(bits=['digitalSignature', 'keyEncipherment', 'keyCertSign'])
+    elif eid in ('san', 'ian'):
+        tmpl.update(names=[('dns', g.host().encode())])
+    elif eid == 'policies':
+        tmpl.update(policies=[('2.5.29.32.0', [])])
+    _add_ext(g, c, dict(id='other', oid=_neighbour_oid(g, G.EXT_OID[eid]), critical=True, value=G.der_ext_value(tmpl)))
+
+
+@cls('ca-basic-constraints-under-neighbour-oid', L_ge(2), 3)
+def m_bc_neighbour(g, c):
+    x = c['chain'][_ca_index(g, c)]
+    if x['version'] != 3:
+        raise Skip()
+    x['exts'] = [e for e in x['exts'] if e['id'] != 'bc']
+    x['exts'].insert(g.rng.randint(0, len(x['exts'])),
+                     dict(id='other', oid=_neighbour_oid(g, G.EXT_OID['bc']), critical=False,
+                          value=G.der_ext_value(dict(id='bc', ca=True, pathlen=None))))
+
+
+@cls('name-san-under-neighbour-oid', weight=2)
+def m_san_neighbour(g, c):
+    h = _h(g)
+    _set_names(c, [('utf8', g.host())], False, h.encode())
+    ee = c['chain'][0]
+    if ee['version'] != 3:
+        raise Skip()
+    ee['exts'].append(dict(id='other', oid=_neighbour_oid(g, G.EXT_OID['san']), critical=False,
+                           value=G.der_ext_value(dict(id='san', names=[('dns', h.encode())]))))
+
+
+@cls('name-cn-under-neighbour-oid', weight=2)
+def m_cn_neighbour(g, c):
+    h = _h(g)
+    _set_names(c, [], False, h.encode())
+    ee = c['chain'][0]
+    ee['subject'] = tuple(list(ee['subject']) + [((g.rng.choice(['CNX', 'CNP', 'CNH']), 'utf8', h),)])
+    c['_dns'][0] = ee['subject']
+
+
 @cls('ext-critical-but-ignored', weight=2)
 def m_crit_ignored(g, c):
     eid = g.rng.choice(sorted(R.IGNORED_EXTS))
